@@ -151,3 +151,11 @@ NOT_APPLICABLE['C13'] = ("begin/rollback are two clone()s of catalog and tables;
 
 _extend('C10', 'ADDED (units K-rowval, I-probe): RowValidator::validate_column_constraints extracts PRIMARY KEY / UNIQUE / FOREIGN KEY keys in the order of the constraint\'s column list '
         '(the order the indexes use) and enforces NOT NULL; IndexData::contains_key - the CREATE UNIQUE INDEX membership test - normalizes its probe like the stored keys.')
+
+_extend('C10', 'ADDED (unit K-index): the real IndexManager maintenance operations (update_for_insert / update / delete / update_selective, rebuild, clear) have their EXACT effect on the '
+        'primary-key and unique hash indexes (which key leaves, which key enters, nothing else), and after rebuild the indexes mirror the rows; these are the contracts unit K-table assumes.')
+_extend('C02', 'ADDED (units I-range, I-multi): the WHERE re-check is skipped only for ranges that exclude the NULL keys (a range without a lower bound returns the rows whose indexed cell '
+        'IS NULL - fix ea284e95); IndexData::multi_lookup / prefix_multi_lookup look up the DISTINCT NORMALIZED keys of an IN list, in ascending key order, each once (fix 1fd7fb89), '
+        'so on a well-formed index no row position is returned twice (lemma). IndexData::range_scan itself is not under contract.')
+_extend('C08', 'ADDED (unit I-multi): an IN list through an index returns every row at most once (distinct normalized keys; `IN (5, 5.0)` is one key) and in ascending key order.')
+_extend('C06', 'ADDED (unit I-range): on a NULL indexed cell no comparison / BETWEEN / AND of those is TRUE, and the skip-the-re-check lemma now ranges over the NULL keys too.')
